@@ -6,6 +6,69 @@ use rten_gemm::{PackedAMatrix, PackedBMatrix};
 use rten_tensor::storage::{Alloc, CowData};
 use rten_tensor::{Contiguous, Layout, TensorBase};
 
+/// Verification hook (only with `--cfg rten_verif`): a sequence-number log of
+/// the pool's critical sections. `enter` is called immediately before the pool
+/// mutex is taken; when ordering is enabled it first takes a process-wide
+/// outer lock that is held until the returned guard is dropped (after the pool
+/// mutex has been released), so the logged sequence numbers are exactly the
+/// order of the critical sections. With ordering disabled (the default) no
+/// extra lock is taken and the numbers are only approximate.
+#[cfg(rten_verif)]
+#[doc(hidden)]
+pub mod verif_log {
+    use std::cell::RefCell;
+    use std::sync::atomic::{AtomicBool, AtomicU64, Ordering};
+    use std::sync::{Mutex, MutexGuard};
+
+    pub const ALLOC_MISS: u8 = 0;
+    pub const ALLOC_HIT: u8 = 1;
+    pub const ADD: u8 = 2;
+
+    static SEQ: AtomicU64 = AtomicU64::new(0);
+    static ORDERED: AtomicBool = AtomicBool::new(false);
+    static OUTER: Mutex<()> = Mutex::new(());
+
+    thread_local! {
+        static LOG: RefCell<Vec<(u64, u8)>> = const { RefCell::new(Vec::new()) };
+    }
+
+    pub struct Guard(#[allow(dead_code)] Option<MutexGuard<'static, ()>>);
+
+    /// Next value of the global sequence counter.
+    pub fn next_seq() -> u64 {
+        SEQ.fetch_add(1, Ordering::SeqCst)
+    }
+
+    /// Enable/disable the outer ordering lock.
+    pub fn set_ordered(on: bool) {
+        ORDERED.store(on, Ordering::SeqCst);
+    }
+
+    /// Return and clear the calling thread's log of `(sequence number, kind)`.
+    pub fn take_thread_log() -> Vec<(u64, u8)> {
+        LOG.with(|l| std::mem::take(&mut *l.borrow_mut()))
+    }
+
+    pub(super) fn enter(kind: u8) -> Guard {
+        let guard = if ORDERED.load(Ordering::SeqCst) {
+            Some(OUTER.lock().unwrap_or_else(|e| e.into_inner()))
+        } else {
+            None
+        };
+        let seq = next_seq();
+        LOG.with(|l| l.borrow_mut().push((seq, kind)));
+        Guard(guard)
+    }
+
+    pub(super) fn mark_hit() {
+        LOG.with(|l| {
+            if let Some(last) = l.borrow_mut().last_mut() {
+                last.1 = ALLOC_HIT;
+            }
+        });
+    }
+}
+
 /// A memory buffer that can be used to satisfy a future allocation from
 /// a [`BufferPool`].
 ///
@@ -204,6 +267,9 @@ impl BufferPool {
 
         self.alloc_count.fetch_add(1, Ordering::AcqRel);
 
+        #[cfg(rten_verif)]
+        let verif_guard = verif_log::enter(verif_log::ALLOC_MISS);
+
         let mut buffers = self.buffers.lock().unwrap();
 
         // Find best fit item that matches the requested type and size with
@@ -227,6 +293,9 @@ impl BufferPool {
         if let Some((best_fit, _overhead)) = best_fit {
             self.hit_count.fetch_add(1, Ordering::AcqRel);
 
+            #[cfg(rten_verif)]
+            verif_log::mark_hit();
+
             let item = buffers.remove(best_fit);
             return item.into_vec::<T>().expect("alignment should match");
         }
@@ -234,6 +303,9 @@ impl BufferPool {
         // No suitable buffer was found. Fall back to the global allocator, but
         // release the mutex before we do.
         std::mem::drop(buffers);
+
+        #[cfg(rten_verif)]
+        std::mem::drop(verif_guard);
 
         Vec::with_capacity(capacity)
     }
@@ -245,6 +317,9 @@ impl BufferPool {
     pub fn add<B: Into<Buffer>>(&self, buf: B) {
         let buf: Buffer = buf.into();
         if buf.layout.size() >= self.min_size {
+            #[cfg(rten_verif)]
+            let _verif_guard = verif_log::enter(verif_log::ADD);
+
             self.buffers.lock().unwrap().push(buf);
         }
     }
